@@ -43,9 +43,12 @@ def expand_props(fn_path, props):
 # --------------------------------------------------------------------------
 # rewrite rules (all keep the number of lines)
 # --------------------------------------------------------------------------
-def rewrite(src, relpath, log):
+def rewrite(src, relpath, log, skip=()):
     def sub(rule, pat, repl, s, flags=0):
         def f(m):
+            ls = s.rfind('\n', 0, m.start()) + 1
+            if s[ls:m.start()].lstrip().startswith('//') or s[ls:].lstrip().startswith('//'):
+                return m.group(0)          # inside a comment / doc comment: leave the text alone
             new = m.expand(repl) if isinstance(repl, str) else repl(m)
             line = s.count('\n', 0, m.start()) + 1
             log.append({'rule': rule, 'file': relpath, 'line': line,
@@ -81,7 +84,7 @@ def rewrite(src, relpath, log):
     # R6
     s = sub('R6', r'pub trait GseDecapMemory \{', 'pub trait GseDecapMemory: Sized {', s)
     # R7  CRC table: exec const with an ensures against a spec copy generated from the same tokens
-    if relpath == 'crc.rs':
+    if relpath == 'crc.rs' and 'R7' not in skip:
         m = re.search(r'const CRC_TAB: &\[u32\] = &\[(.*?)\];', s, re.S)
         if not m:
             raise AnchorLost('R7: CRC_TAB literal not found in crc.rs')
